@@ -58,6 +58,17 @@ def run(chk, tier, scale=1.0):
             j["build"] = bplain
             j["config"] = pcommon.random_config(__import__("random").Random("c01p/%d/%d" % (chk.seed, k)), want_class=True).to_json()
     chk.count("histories_on_unsanitized_build", len([1 for k in range(len(jobs)) if k % 4 == 3]))
+    # one or two clients with long lives: several passwords (hold taken, released, taken again), bare OK / AGAIN answers, the
+    # request timer firing in between - what is latched per request (the soft-done notice) has to survive all of it
+    import random as _random
+    import proto as _proto
+    dense = {"weights": {"password": 30, "timeout": 14, "reply": 30, "hurry": 8, "data": 14, "announce": 3, "reannounce": 1, "disconnect": 1, "registered": 1, "stray": 2,
+                         "unlinked": 2, "stats": 1, "dupdata": 2}, "reply_kinds": ["OK", "OK", "AGAIN", "MORE", "OKacct", "junk"], "wellformed_pw": 0.95}
+    djobs = pcommon.hist_jobs(b, int((160 if tier == "quick" else 6000) * scale), chk.seed, PROPS, opts=dense, tag="c01d", ids_pool=(5, 6), n_events=70, reload_share=0.1,
+                              cfg_fn=lambda r: _proto.Config([("login.svc", r.choice(["login", "login-ipr", "combined"]))] + ([("drone.svc", "dronecheck")] if r.random() < 0.3 else []),
+                                                             timeout=r.choice([3600, 3600, None])))
+    jobs += djobs
+    chk.count("dense_single_client_histories", len(djobs))
     res = vcommon.pmap(prun.hist_worker, jobs, chunksize=4)
     prun.fold(chk, "C01", res)
     # directed: two clients whose ids agree in their low bits, live at the same time (half on the unsanitized build)
